@@ -536,7 +536,10 @@ func (t *stdioClientTransport) sendErrorResponse(request *JSONRPCRequest, code i
 		return
 	}
 
-	if err := t.encoder.Encode(json.RawMessage(errorBytes)); err != nil {
+	t.requestMutex.Lock()
+	err = t.encoder.Encode(json.RawMessage(errorBytes))
+	t.requestMutex.Unlock()
+	if err != nil {
 		t.logger.Errorf("Failed to send error response: %v", err)
 	}
 }
